@@ -570,6 +570,12 @@ impl<TokenIter: Iterator<Item = Result<Token>>> Parser<TokenIter> {
                                     if let Some(transformer) =
                                         syntax_env.get(&first.expect_symbol()?)
                                     {
+                                        #[cfg(ruschm_verif)]
+                                        if !crate::verif::step() {
+                                            return error!(SyntaxError::Extension(
+                                                crate::verif::FUEL_MESSAGE.to_string()
+                                            ));
+                                        }
                                         let remained = DatumBody::Pair(pair).locate(location);
                                         let expanded_datum =
                                             transformer.transform(keyword, remained)?;
